@@ -161,6 +161,17 @@ impl Lexer {
         Position::new(self.row, self.col, self.pos)
     }
 
+    /// The position where an unfinished string or character ends: the current
+    /// character, or the last character of the source when there is no
+    /// current one (a position behind the last character is not in the file).
+    fn get_end_pos(&self) -> Position {
+        if self.current().is_none() && self.pos > 0 && self.col > 0 {
+            Position::new(self.row, self.col - 1, self.pos - 1)
+        } else {
+            self.get_pos()
+        }
+    }
+
     /// Lex a unicode escape code.
     ///
     /// Returns None if the code doesn't define a valid unicode character. The
@@ -256,7 +267,7 @@ impl Lexer {
 
         // If we run out of characters, we have an un-closed string
         Err(StringLexError::new(
-            self.get_pos(),
+            self.get_end_pos(),
             StringLexErrorType::Unclosed,
         ))
     }
@@ -476,7 +487,7 @@ impl Iterator for Lexer {
                         }
 
                         // The character is unclosed
-                        let end = self.get_pos();
+                        let end = self.get_end_pos();
                         let err = self.invalid_string(
                             c.to_string(),
                             StringLexErrorType::Unclosed,
@@ -488,7 +499,7 @@ impl Iterator for Lexer {
                     }
                 }
 
-                let end = self.get_pos();
+                let end = self.get_end_pos();
                 let err = self.invalid_string(
                     String::new(), // Empty string, since we are at EOF
                     StringLexErrorType::Unclosed,
